@@ -2,13 +2,13 @@
 
 Decided (structural necessary conditions): every store of a bounded parameter is
 guarded by its bound check; sqrt_price / tick_spacing / mint order are checked at
-initialisation; adaptive-fee constants are stored only behind validate_constants,
+initialisation and the initial tick is the tick of the initial price; adaptive-fee constants are stored only behind validate_constants,
 whose atoms are the published rules; the mint admission table per extension and
 badge state; badge identity check; admission must-pass before pool/reward init.
 Not decided: reachability of out-of-bound prices through swap arithmetic."""
 from analysis import cfg, writes, atoms as A, preach
 from analysis.ir import callee_path, op_place, AnchorMissing
-from analysis.prov import prov_of, show, strip, leaves
+from analysis.prov import prov_of, show, strip, leaves, subterms
 from analysis.match import (const_name, const_val, is_param, same, fail_conditions, ret_conditions,
                             sh, chain, is_call, is_field, mentions)
 
@@ -163,6 +163,14 @@ def R1c_pool_initialize(run):
         good = bool(ws) and all(is_param(_stored_value(fn, w), param) for w in ws)
         run.check("R1c", "init-store." + field, good, "initialize stores %s from something other than its checked parameter `%s`" % (field, param),
                   loc=fn.loc(ws[0]["line"]) if ws else fn.loc(), detail="%s := param %s" % (field, param))
+    # the initial tick is the tick of the initial price
+    ws = [w for w in stores if w["field"] == "tick_current_index" and w["last"]]
+    good = len(ws) == 1
+    if good:
+        v = strip(_stored_value(fn, ws[0]))
+        good = v[0] == "call" and v[1].endswith("tick_index_from_sqrt_price") and is_param(strip(v[2][0])[1] if strip(v[2][0])[0] == "ref" else v[2][0], "sqrt_price")
+    run.check("R1c", "init-store.tick_current_index", good, "initialize does not store tick_current_index := tick_index_from_sqrt_price(sqrt_price)", loc=fn.loc(),
+              detail="tick_current_index := tick_index_from_sqrt_price(&sqrt_price)")
     # writer sets
     expect = {
         "sqrt_price": {"state::whirlpool::Whirlpool::initialize", "state::whirlpool::Whirlpool::update_after_swap"},
@@ -440,13 +448,14 @@ def R4_mint_admission(run):
         if "owner" in s and "Token" in s and at.cond() and at.cond()[0] in ("Eq", "Ne"):
             rv = at.true_ret if at.cond()[0] == "Eq" else at.false_ret
             has_owner = has_owner or bool(rv) and all(r[0] == "other" for r in rv)
-        if "native_mint::check_id" in show(at.term, True):
+        # it must be the Token-2022 native mint: the legacy program's native mint can never be owned by Token-2022
+        if any(s_[0] == "call" and s_[1].endswith("spl_token_2022::native_mint::check_id") for s_ in subterms(at.term)):
             has_native = True
             native_at = at
         if "is_some" in s and "freeze_authority" in s:
             has_freeze = True
             freeze_at = at
-    run.check("R4", "native-2022", has_native, "native Token-2022 mint is no longer tested", loc=fn.loc(), detail="native_mint::check_id atom present")
+    run.check("R4", "native-2022", has_native, "native Token-2022 mint is no longer tested", loc=fn.loc(), detail="spl_token_2022::native_mint::check_id(mint key) atom present")
     if has_native:
         pvv = pv
         fl_t = preach.flow(fn, {})
